@@ -1,4 +1,4 @@
 SPECIFICATION Spec
-CONSTANTS MaxEntries = 2
+CONSTANTS MaxRR = 2 MaxRA = 2
 INVARIANT PlanOK
 CHECK_DEADLOCK FALSE
